@@ -354,7 +354,13 @@ def gen_history(rng, n, clean, copy_ok):
         if r < 0.8:
             a = rng.randint(1, 3)
             return [["range", a, rng.randint(a, 6)]]
-        return [["one", rng.randint(1, 5)], ["one", rng.randint(1, 5)]]
+        if r < 0.9:
+            return [["one", rng.randint(1, 5)], ["one", rng.randint(1, 5)]]
+        # a set that names a UID twice and another one after it (1,1:3 / 2,2,3): seeded C03-5
+        a = rng.randint(1, 3)
+        if rng.random() < 0.5:
+            return [["one", a], ["range", a, rng.randint(a + 1, 5)]]
+        return [["one", a], ["one", a], ["one", a + 1]]
 
     def existing(extra=()):
         l = sorted(mir.names - {"Sent", "Drafts"}) + list(extra)
